@@ -60,8 +60,8 @@ fn refuse(size: usize) -> ! {
     // name the requesting function of the code under test (allocating is fine now: the cap is
     // switched off first and this process is about to abort anyway)
     CAP_ON.store(false, Ordering::Relaxed);
-    let site = crate::fw::in_repo_site();
-    let line = format!("amv-alloc-cap: site={}\n", if site.is_empty() { "?" } else { &site });
+    let (file, func) = crate::fw::in_repo_frame();
+    let line = format!("amv-alloc-cap: site={}\n", if func.is_empty() { "?".to_string() } else { format!("{file}#{func}") });
     unsafe {
         libc::write(2, line.as_ptr() as *const libc::c_void, line.len());
         libc::abort();
